@@ -211,7 +211,7 @@ pub fn dom(d: &Dom) -> FiniteDomain {
 }
 
 /// Harness-level probes (fngoal bodies) are registered here by index.
-pub type ProbeFn<U, E> = Rc<dyn Fn(&Env<U, E>, &State<U, E>) -> bool>;
+pub type ProbeFn<U, E> = Rc<dyn Fn(&Env<U, E>, State<U, E>) -> Option<State<U, E>>>;
 
 pub struct Builder<U: User, E: Engine<U>> {
     pub env: Rc<Env<U, E>>,
@@ -392,10 +392,9 @@ impl<U: User, E: Engine<U>> Builder<U, E> {
                 let f = Rc::clone(&self.probes[*k as usize]);
                 let env = Rc::clone(&self.env);
                 proto_vulcan::operator::fngoal::FnGoal::new::<K>(Box::new(move |_solver, state| {
-                    if f(&env, &state) {
-                        proto_vulcan::stream::Stream::unit(Box::new(state))
-                    } else {
-                        proto_vulcan::stream::Stream::empty()
+                    match f(&env, state) {
+                        Some(state) => proto_vulcan::stream::Stream::unit(Box::new(state)),
+                        None => proto_vulcan::stream::Stream::empty(),
                     }
                 }))
                 .cast_into()
